@@ -251,7 +251,11 @@ func c17Stream(cs *drv.Case, vals []cval, stream []byte, cut int, e error, withD
 		if ferr == nil {
 			if cs.R.Intn(3) == 0 {
 				// the application is done with this value: what the source said with its last bytes is not forgotten
-				dr.Release(nil)
+				if cs.R.Intn(2) == 0 {
+					dr.Release(nil)
+				} else {
+					dr.Release(errors.New("the caller gave up on this message")) // the reason given to Release is the caller's, not the stream's
+				}
 				cs.C.Obs("releases between the values of a failing stream", 1)
 			}
 			continue
